@@ -177,6 +177,8 @@ Placeholder(v) ==
     [] v[1] = "tuple" -> ELL
     [] v[1] \in {"dict", "dictany"} -> <<"set", <<ELL>>>>
     [] v[1] \in {"set", "frozenset", "int", "float", "str", "bytes"} -> PhCall(v[1])
+    \* an instance of a type printed as a call (namedtuple, SimpleNamespace, a pretty_call printer): Name(...)
+    [] v[1] = "call" -> PhCall(v[2])
     [] OTHER -> v                       \* bool / None have no depth check
 
 \* (only list and tuple printers test emptiness before the depth)
@@ -200,5 +202,9 @@ CutSyn(v, d, re, rk) ==
                           <<IF rk /\ v[2][i][1][1] \in {"str", "bytes"} THEN v[2][i][1]
                             ELSE CutSyn(v[2][i][1], d - 1, re, rk),
                             CutSyn(v[2][i][2], d - 1, re, rk)>>] \o <<>>>>
+         \* <<"call", name, args, kwargs>>: the arguments are nested one level deeper
+         [] v[1] = "call" ->
+              <<"call", v[2], [i \in 1..Len(v[3]) |-> CutSyn(v[3][i], d - 1, re, rk)] \o <<>>,
+                [i \in 1..Len(v[4]) |-> <<v[4][i][1], CutSyn(v[4][i][2], d - 1, re, rk)>>] \o <<>>>>
          [] OTHER -> v
 =============================================================================
